@@ -512,13 +512,22 @@ Fixpoint kh_replay (n1 : nat) (w1 : Z) (deadline : Z) (s : state) (total : nat) 
       (kh_stamps p =? total + a)%nat && kh_replay n1 w1 deadline s' (total + a) r
   end.
 
-Definition kh_model_ok (c : khcase) : bool :=
-  match khc_phases c with
+(** the limiter of the key is created by the FIRST throttle call for the key, with the limits
+    in force then: phases without callers before that create nothing (no limiter registered:
+    nothing admitted, ring length, window and stamps reported as 0) *)
+Fixpoint kh_model_from (deadline : Z) (l : list khphase) : bool :=
+  match l with
   | [] => true
-  | p :: _ =>
-      let t0 := Z.max (kh_w p) 0 + 1 in
-      kh_replay (kh_n p) (kh_w p) (khc_deadline c) (settle (init (kh_n p) (kh_w p) t0) t0) 0 (khc_phases c)
+  | p :: r =>
+      match kh_k p with
+      | O => (kh_adm p =? 0)%nat && kh_same p && (kh_len p =? 0)%nat && (kh_win p =? 0) && (kh_stamps p =? 0)%nat &&
+             kh_model_from deadline r
+      | _ => let t0 := Z.max (kh_w p) 0 + 1 in
+             kh_replay (kh_n p) (kh_w p) deadline (settle (init (kh_n p) (kh_w p) t0) t0) 0 l
+      end
   end.
+
+Definition kh_model_ok (c : khcase) : bool := kh_model_from (khc_deadline c) (khc_phases c).
 
 (** the property: the limiter registered for the key is never replaced while it holds stamps,
     and — all phases lie well inside every window — the key never gets more admissions than the
